@@ -5,39 +5,54 @@ META = dict(
     spec="Blockstore",
     level_text=("TLC explores the map model exhaustively (all configurations); every mutator sequence of depth 2 (quick) / 3 "
                 "(thorough) over CID aliases, identity CIDs and the empty block, in all 8 WriteThrough/NoPrefix/IdStore "
-                "configurations, is replayed into the real blockstore with a full query battery and raw-datastore inspection "
-                "after each step; random 200-400 step histories of the real code are validated as behaviours of the spec."),
-    level_note="Trusted: go-datastore MapDatastore, go-multihash; honest blocks (bytes are a function of the multihash); projection = harness name table.",
+                "configurations, plus every single call (quick) / pair of calls (thorough) over all CID variants (v0, v1-raw, "
+                "v1-dag-pb, identity raw/dag-pb; sha2-256 and sha2-512 digests) of a block universe whose lengths straddle the "
+                "framing boundaries (0, 1, 127|128, 255|256, 16383|16384), is replayed into the real blockstore with a full "
+                "query battery (found + delivered length + byte values) and raw-datastore inspection after each step; random 200-400 step histories of the real code are validated as behaviours of the spec."),
+    level_note="Trusted: go-datastore MapDatastore, go-multihash; honest blocks (bytes are a function of the multihash); projection = harness name table; the universe (CID table, lengths, hash functions, multihash framing) is printed by the spec and cross-checked against the real multihashes.",
     technique="TLA+ map model; TLC BFS/simulation-generated behaviours replayed into the code; recorded traces validated by TLC (TraceBlockstore)",
 )
 
 
 def run(ctx):
-    ctx.assumptions += ["MapDatastore (go-datastore) is a correct map", "go-multihash sha2-256/identity",
+    ctx.assumptions += ["MapDatastore (go-datastore) is a correct map", "go-multihash sha2-256/sha2-512/identity, go-cid construction",
                         "honest blocks only: bytes are a function of the multihash"]
     ctx.cov["rule"] = ("G: every mutator sequence of depth D over all 8 configurations (exhaustive BFS) plus "
                        "simulated long sequences; after every step the harness runs the full query battery "
                        "(Has/Get/GetSize/View per CID alias, AllKeysChan(+WithErr), raw datastore keys) and compares "
-                       "with the model store. T: random histories validated by TraceBlockstore. "
-                       "non-trivial = behaviour whose model store changed at least twice")
+                       "with the model store and the spec's Size of the entry. U: every call over the wide boundary "
+                       "universe (8 blocks + 8 identity CIDs, all variants). T: random histories validated by TraceBlockstore. "
+                       "non-trivial = behaviour whose model store changed at least twice (U family: at least once)")
     # M
     ctx.tlc_mc("Blockstore", "Blockstore.tla", "MCBlockstore.cfg", timeout=300,
                coverage=not ctx.quick)
-    # G
+    # G.  Every generator run prints its block universe first ({"univ": ...}: CID table and multihash
+    # table of the spec); the harness builds its blocks and CIDs from that record.
     behs = ctx.tlc_gen("Blockstore", "GenBlockstore.tla",
                        "GenBlockstore.cfg" if ctx.quick else "GenBlockstoreD3.cfg", timeout=900)
     sims = ctx.tlc_gen("Blockstore", "GenBlockstore.tla", "GenBlockstoreSim.cfg",
                        simulate=10 if ctx.quick else 100, depth=31 * 30 + 1, timeout=900)
+    # universe family: every single call (quick) / every pair of calls (thorough) over ALL CID variants
+    # of 8 blocks and 8 identity CIDs whose lengths straddle the framing boundaries (0, 1, 127|128, 255|256,
+    # 16383|16384) and two digest lengths
+    wide = ctx.tlc_gen("Blockstore", "GenBlockstore.tla",
+                       "GenBlockstoreU.cfg" if ctx.quick else "GenBlockstoreU2.cfg", timeout=900)
     binp = ctx.go_build("blockstore", ["blockstore/zz_verif_C01_test.go"])
     def changed_twice(b):
         n, prev = 0, []
-        for st in b["steps"]:
+        for st in b.get("steps", []):
             n += st["store"] != prev
             prev = st["store"]
         return n >= 2
-    for name, bl, env in (("bfs", behs, {"C01_NB": 2, "C01_NID": 1}), ("sim", sims, {"C01_NB": 3, "C01_NID": 2})):
-        if ctx.replay_behaviours(binp, "TestVerifC01", "blockstore", bl, env=env, name=name,
-                                 nontrivial=changed_twice) is None:
+    def changed_once_wide(b):   # depth-1 family: the call changed the store
+        return any(st["store"] for st in b.get("steps", []))
+    for name, bl, nt in (("bfs", behs, changed_twice), ("sim", sims, changed_twice), ("wide", wide, changed_once_wide)):
+        us = [b for b in bl if "univ" in b]
+        if len(us) != 1:
+            ctx.broken("generator %s printed %d universe records, expected exactly 1" % (name, len(us)))
+            return
+        bl = us + [b for b in bl if "univ" not in b]
+        if ctx.replay_behaviours(binp, "TestVerifC01", "blockstore", bl, name=name, nontrivial=nt) is None:
             return
     ctx.cov["exhaustive"] = True
     # T
@@ -51,7 +66,7 @@ def run(ctx):
             return None, None
         i = idx[len(idx) // 2]
         bad = [dict(r) for r in rs]
-        bad[i]["found"], bad[i]["mh"] = False, ["none", 0]
+        bad[i]["found"], bad[i]["mh"], bad[i]["size"] = False, ["none", 0], -1
         return bad, i
     ctx.validate_trace("Blockstore", "TraceBlockstore.tla", "TraceBlockstore.cfg", recs,
                        count_runs=lambda rs: sum(1 for r in rs if r["ev"] == "Reset"), negative=corrupt)
